@@ -148,7 +148,8 @@ def check_miter(acc, d0, d1, sp_arg, ep_arg, label, solve_too=True, edit=None, s
     try:
         if label in ("copy", "omitted"):
             # an earlier call with the SAME argument objects (circuits, startpoint / endpoint sets) must not matter
-            cg.tx.miter(c0, c1, **kw) if c1 is not None else cg.tx.miter(c0, **kw)
+            # ... and the caller may do what it likes with the first result
+            space.scramble(cg.tx.miter(c0, c1, **kw) if c1 is not None else cg.tx.miter(c0, **kw))
             if (sp_arg and kw["startpoints"] != set(sp_arg)) or (ep_arg and kw["endpoints"] != set(ep_arg)):
                 acc.violation(site, "argument-set-modified", case, f"startpoints/endpoints argument changed to {kw}")
                 return None
